@@ -156,7 +156,7 @@ class Runner:
             f.write(script)
         return p
 
-    def run_replay(self, path, timeout=600):
+    def run_replay(self, path, timeout=150):
         """Runs a stand-alone replay with the repository's own interpreter, no shims.
         Convention: exit 1 = the violation reproduces; exit 0 = it does not."""
         self.replays_run += 1
